@@ -828,3 +828,87 @@ def name_family():
                 for v in vals:
                     out.append(mk_case(at, canon_val(wrap(v))[0], kind='name'))
     return out
+
+
+# ------------------------------------------------------------------ state a fresh process needs to read stored cases
+
+def export_state():
+    """the name table (name ids are hashes: a fresh process can only spell the names it has met)"""
+    return {'names': sorted(NAMES)}
+
+
+def import_state(st):
+    for s in (st or {}).get('names', []):
+        nid(s)
+
+
+# ------------------------------------------------------------------ twins for the amplified run (core.amplified_run, props/_twins.py)
+
+def _lit_twin(l, to):
+    """literal term -> literal term of a value that is == and hashes alike: ["int", 1] <-> ["bool", true] <-> ["flt", 1, 1]"""
+    import _twins
+    if l[0] not in ('bool', 'int', 'flt'):
+        return l
+    v = lit_obj(l)
+    t = _twins.scalar_twin(v, to)
+    return lit_term(t) if t is not v else l
+
+
+def twin_val_term(t, to):
+    """value term with every scalar replaced by its twin of kind `to` ('bool' | 'int' | 'float')"""
+    k = t[0]
+    if k == 'lit': return ["lit", _lit_twin(t[1], to)]
+    if k in ('coll', 'tup', 'iterator'): return [k, t[1], [twin_val_term(x, to) for x in t[2]]]
+    if k == 'ntup': return [k, t[1], t[2], [twin_val_term(x, to) for x in t[3]]]
+    if k == 'mapping': return [k, t[1], [[twin_val_term(a, to), twin_val_term(b, to)] for a, b in t[2]]]
+    return t
+
+
+def _swap_cls(t, a, b):
+    """every occurrence of class id a in a term (annotation or value) replaced by b and vice versa"""
+    if isinstance(t, list):
+        if len(t) >= 2 and t[0] in ('cls', 'clsF', 'inst', 'clsobj', 'newtype') and t[1] in (a, b):
+            return [t[0] if t[0] != 'clsF' else 'cls', b if t[1] == a else a]
+        return [_swap_cls(x, a, b) for x in t]
+    return t
+
+
+def twin_ann_term(t, to):
+    """annotation term with the members of every Literal[...] replaced by their twins"""
+    if isinstance(t, list):
+        if t and t[0] == 'lit' and len(t) == 2 and isinstance(t[1], list) and all(isinstance(l, list) for l in t[1]):
+            return ["lit", [_lit_twin(l, to) for l in t[1]]]
+        return [twin_ann_term(x, to) for x in t]
+    return t
+
+
+def twins(case):
+    """twin cases of a checker case (m == 'checker'): same shape, colliding under == / hash / repr / __qualname__:
+    the annotation with P <-> Pdup (a class made twice: same module, qualified name, repr), the value with P-instances <-> Pdup-instances,
+    the value with every 0/1/0.0/1.0/False/True (and every integral number) moved to another numeric type, Literal members likewise."""
+    if case.get('m') != 'checker' or case.get('x', {}).get('cycle') or case.get('x', {}).get('alias'):
+        return []
+    at, vt = case['c']['ann'], case['c']['val']
+    out, seen = [], {json.dumps([at, vt])}
+
+    def add(a2, v2, kind):
+        try:
+            a2 = canon_ann(a2)[0]
+            v2 = canon_term(v2)
+        except Exception:
+            return
+        key = json.dumps([a2, v2])
+        if key in seen or v2 is None:
+            return
+        seen.add(key)
+        x = {k: v for k, v in case.get('x', {}).items() if k not in ('alts', 'valts', 'history')}
+        x.update(kind='twin:' + kind, alts=[], valts=[])
+        out.append({'m': 'checker', 'c': dict(case['c'], ann=a2, val=v2), 'x': x})
+    p, d = IDX[P], IDX[Pdup]
+    add(_swap_cls(at, p, d), vt, 'classInAnnotation')
+    add(at, _swap_cls(vt, p, d), 'classInValue')
+    for to in ('bool', 'int', 'float'):
+        add(at, twin_val_term(vt, to), 'scalarsTo' + to)
+    for to in ('bool', 'int'):
+        add(twin_ann_term(at, to), vt, 'literalsTo' + to)
+    return out
